@@ -249,6 +249,7 @@ func C06(ctx *core.Ctx) {
 
 	ctx.Rule("C06.R7", "responses that arrive together are all delivered: the buffering frame decoder of a reader loop is built once per loop, not per frame", 1)
 	decoderPerLoop(ctx, r, "C06.R7")
+	c06Owners(ctx, r)
 	// ---- R2 -----------------------------------------------------------------
 	reg := r.Named("fRegistryImpl")
 	if reg != nil {
@@ -334,5 +335,77 @@ func C06(ctx *core.Ctx) {
 					"make(chan []byte, n≥1)", "result channel is unbuffered or of unknown capacity: with non-blocking delivery a response arriving before the caller selects is dropped; with blocking delivery the reader stalls")
 			}
 		}
+	}
+}
+
+// c06Owners — C06.R8/R9: who may remove a registration, and who may tear the
+// transport down.
+//
+// R8: a registration belongs to the Request that made it; only Unregister (the
+// owner's deferred clean-up) deletes from the registry's channel map. The
+// inbound path looks registrations up by op id; a delete from there removes
+// whatever is registered under that id *now* — after a caller reused its
+// context, somebody else's in-flight request.
+//
+// R9: the connection is shared by all in-flight requests; only the reader loop
+// (a failure of the stream) and Close end it. The sending side of one request —
+// the goroutine Request/Oneway spawn, and everything it calls — never calls
+// the transport's close: a write or flush that fails because *that* request's
+// context is done must not cost the others their responses.
+func c06Owners(ctx *core.Ctx, r *RT) {
+	ctx.Rule("C06.R8", "only Unregister removes a registration: no other function deletes from the registry's channel map", 1)
+	n := 0
+	for _, fn := range r.Fns {
+		for _, c := range ssax.Calls(fn) {
+			if c.FullName() != "builtin.delete" || len(c.Common.Args) < 1 {
+				continue
+			}
+			m, ok := c.Common.Args[0].Type().Underlying().(*types.Map)
+			if !ok {
+				continue
+			}
+			if ch, isCh := m.Elem().Underlying().(*types.Chan); !isCh || ch.Elem().String() != "[]byte" {
+				continue
+			}
+			n++
+			ctx.Check(fn.Name() == "Unregister", "C06.R8", ssax.Name(fn)+sprintf(" › delete from the result-channel map (#%d)", n), r.IPos(c.Instr), "in Unregister",
+				"a registration is removed by "+ssax.Name(fn)+", not by the Request that owns it: the removal is keyed by op id at a time the owner does not control — after a duplicate or late response it can delete the registration of a newer request that reuses the context, whose response is then dropped as unregistered and whose caller times out")
+		}
+	}
+	if n == 0 {
+		ctx.Unresolved("C06.R8", "registry", "no delete from a map of result channels found")
+	}
+
+	ctx.Rule("C06.R9", "one request cannot end the shared connection: the sender spawned by Request/Oneway never reaches the transport's close", 1)
+	nS := 0
+	for _, m := range []string{"Request", "Oneway"} {
+		for _, fn := range r.Impl("FTransport", m) {
+			for _, g := range localCone(fn, 2) {
+				for _, c := range ssax.Calls(g) {
+					goI, isGo := c.Instr.(*ssa.Go)
+					if !isGo {
+						continue
+					}
+					_ = goI
+					for _, t := range r.Resolve(c) {
+						nS++
+						bad := ""
+						for _, h := range localCone(t, 3) {
+							for _, c2 := range ssax.Calls(h) {
+								if c2.Static != nil && c2.Static.Pkg == r.Pkg && (c2.Static.Name() == "close" || c2.Static.Name() == "Close") && c2.Static.Signature.Recv() != nil &&
+									fn.Signature.Recv() != nil && sameNamed(c2.Static.Signature.Recv().Type(), fn.Signature.Recv().Type()) {
+									bad = r.IPos(c2.Instr) + " (" + ssax.Name(h) + ")"
+								}
+							}
+						}
+						ctx.Check(bad == "", "C06.R9", ssax.Name(fn)+" › sender "+ssax.Name(t)+" does not close the transport", r.IPos(c.Instr), "no call of the transport's close in the sender's cone",
+							"the goroutine that writes one request calls the transport's close at "+bad+": a write or flush that fails only because this request's context is done (timed out, already answered) tears down the connection every other in-flight request is waiting on — their responses are never read although the peer sends them")
+					}
+				}
+			}
+		}
+	}
+	if nS == 0 {
+		ctx.Discharge("C06.R9", "runtime › no sender goroutine in Request/Oneway", "", "nothing to check")
 	}
 }
